@@ -91,6 +91,9 @@ def _san_summary(err_text):
         what = re.sub(r"0x[0-9a-f]+", "ADDR", what)
         what = re.sub(r"\d+", "N", what)
         return "ubsan:" + what[:60].strip().replace(" ", "-")
+    m = re.search(r"WARNING: ThreadSanitizer: ([a-zA-Z -]+?) \(pid", err_text)
+    if m:
+        return "tsan:" + m.group(1).strip().replace(" ", "-")
     m = re.search(r"ERROR: LeakSanitizer", err_text)
     if m:
         return "lsan:leak"
